@@ -1,8 +1,110 @@
-(** C14 — graph algorithms (first stage: pipeline; theorems are added in later stages). *)
-From Algo.C14 Require Import Model Checkers.
+(** C14 — Graph algorithms: correct paths, components, orders, MSTs, shortest paths.
 
+    Statements only; proofs are in coq/theories/C14/Proofs*.v.  A graph is given as a vertex
+    count [n] and an edge list [es] ([mk_graph d n es] replays Go's [AddEdge] calls; [d] = directed;
+    edges with an end point >= n are ignored exactly as the Go code ignores them).  The model
+    functions ([paths_of], [paths_to], [connected_components], ...) transcribe graph/*.go; panics
+    and fuel exhaustion are the result values [Panic]/[Hang], so "returns [Ok]" includes
+    termination of every loop and recursion of the model. *)
+From Algo.C14 Require Import Spec ProofsBasic ProofsTrav ProofsReach.
+
+(** * The property at full strength *)
+Definition nonneg (es : list edge) : Prop := forall e, In e es -> (0 <= e_w e)%Z.
+
+Definition C14_full : Prop :=
+  forall (d : bool) (n : nat) (es : list edge),
+    let g := mk_graph d n es in
+    (* Paths(s).To(v): a real path iff reachable; fewest edges for BFS *)
+    (forall sg s, s < n ->
+       exists p, paths_of g sg s = Ok p /\
+         forall v, v < n ->
+           match paths_to p v with
+           | Ok (Some l) => is_path g s v l /\
+                            (sg = SBFS -> forall l', is_path g s v l' -> length l <= length l')
+           | Ok None => ~ reach g s v
+           | _ => False
+           end) /\
+    (* ConnectedComponents: ids <-> undirected reachability *)
+    (d = false ->
+       exists c, connected_components g = Ok c /\
+         forall v w, v < n -> w < n -> (getn (snd c) v = getn (snd c) w <-> reach g v w)) /\
+    (* StronglyConnectedComponents: ids <-> mutual reachability *)
+    (d = true ->
+       exists c, strongly_connected_components g = Ok c /\
+         forall v w, v < n -> w < n -> (getn (snd c) v = getn (snd c) w <-> mutually_reachable g v w)) /\
+    (* DirectedCycle: a genuine cycle iff one exists *)
+    (d = true ->
+       exists r, directed_cycle g = Ok r /\
+         match r with Some c => is_cycle g c | None => acyclic g end) /\
+    (* Topological: an order consistent with every edge iff acyclic *)
+    (d = true ->
+       exists r, topological g = Ok r /\
+         match r with Some (o, _) => topological_order g o /\ acyclic g | None => ~ acyclic g end) /\
+    (* MinimumSpanningTree: a spanning forest of minimum total weight *)
+    (d = false -> nonneg es ->
+       exists f w, minimum_spanning_tree g = Ok (f, w) /\ w = weight_of f /\ spanning_forest g f /\
+         forall f', spanning_forest g f' -> (w <= weight_of f')%Z) /\
+    (* ShortestPathTree: minimum distance with a path of exactly that weight *)
+    (d = true -> nonneg es ->
+       forall s, s < n ->
+         exists t, shortest_path_tree g s = Ok t /\
+           forall v, v < n ->
+             match path_to t v with
+             | Ok (Some (p, dist)) => epath g s p v /\ weight_of p = dist /\
+                                      forall p', epath g s p' v -> (dist <= weight_of p')%Z
+             | Ok None => ~ reach g s v
+             | _ => False
+             end).
+
+(** * What is proved *)
+
+(** The adjacency relation of a constructed graph is exactly what the edge list says. *)
+Theorem C14_graph_edges :
+  forall d n es u w,
+    edge_rel (mk_graph d n es) u w <->
+    exists e, In e es /\ (e_a e < n /\ e_b e < n) /\
+              ((e_a e = u /\ e_b e = w) \/ (d = false /\ e_b e = u /\ e_a e = w)).
+Proof. exact mk_graph_edge_rel. Qed.
+
+(** Reachability, for all graphs, sources, targets and the three strategies: the traversal
+    terminates within its fuel, visits exactly the reachable vertices, [To v] terminates and
+    returns a real, simple path from [s] to [v] iff [v] is reachable. *)
+Theorem C14_paths_partial :
+  forall d n es sg s, s < n ->
+    let g := mk_graph d n es in
+    exists p, paths_of g sg s = Ok p /\
+      (forall v, v < n -> (getb (p_vis p) v = true <-> reach g s v)) /\
+      (forall v, v < n -> reach g s v ->
+                 exists l, paths_to p v = Ok (Some l) /\ is_path g s v l /\ NoDup l) /\
+      (forall v, v < n -> ~ reach g s v -> paths_to p v = Ok None).
+Proof.
+  intros d n es sg s Hs g.
+  pose proof (paths_correct g (wf_mk_graph d n es) s) as H.
+  unfold g in *. rewrite mk_graph_n in H. apply H. exact Hs.
+Qed.
+
+(** Soundness of the simple certificate checkers run on the implementation's answers. *)
+Theorem C14_check_path_sound :
+  forall g s v p, check_path g s v p = true -> is_path g s v p.
+Proof. exact check_path_sound. Qed.
+
+Theorem C14_check_cycle_sound :
+  forall g c, check_cycle g c = true -> is_cycle g c.
+Proof. exact check_cycle_sound. Qed.
+
+Theorem C14_check_topo_sound :
+  forall g order, wf g -> check_topo g order = true -> topological_order g order.
+Proof. exact check_topo_sound. Qed.
+
+(** Non-vacuity. *)
 Example C14_example :
   let g := mk_graph true 4 [(0,1,0%Z); (1,2,0%Z); (2,0,0%Z); (2,3,0%Z)] in
   (match paths_of g SBFS 0 with Ok p => paths_to p 3 | _ => Hang end) = Ok (Some [0; 1; 2; 3]) /\
   directed_cycle g = Ok (Some [2; 0; 1; 2]).
 Proof. vm_compute. split; reflexivity. Qed.
+
+Print Assumptions C14_graph_edges.
+Print Assumptions C14_paths_partial.
+Print Assumptions C14_check_path_sound.
+Print Assumptions C14_check_cycle_sound.
+Print Assumptions C14_check_topo_sound.
